@@ -19,6 +19,9 @@ def check(ctx: Ctx) -> None:
     r_map_bound(ctx, "R05.3")
     r_map_end_wrapper(ctx, "R05.4")
     SP.r_unreachable_lock_raise(ctx, "R05.6")
+    S.r_spawner_registry_who(ctx, "R05.8")
+    from .elemtrack import r_spawner_kept
+    r_spawner_kept(ctx, "R05.9")
     S.r_wiring(ctx, "R05.w", {"ITER", "STARS", "NCONC", "FUNC", "GROUP", "END", "CANCEL", "MAPSEM"}, 20, "map roles")
     rep.rule("R05.7", "work-conserving: the map-concurrency slot comes back only through the task's end callback, so that callback must begin "
                       "exactly once on every way a task can end - return, exception, cancellation (life-cycle typestate, shared with C03)")
